@@ -23,7 +23,7 @@ fn h_ipv4_decode_total() {
     vx_cover!(r.is_ok());
 }
 
-//# id=decode.reencode fns=Ipv4Header::from_bytes+Ipv4Header::serialize+Ipv4HeaderBuilder::build props=C08,C14 kind=complete pair=
+//# id=decode.reencode fns=Ipv4Header::from_bytes+Ipv4Header::serialize+Ipv4HeaderBuilder::build props=C08,C14,C16 kind=complete pair=ipck.Ipv4Header.serialize.re_emits_every_field_with_a_fresh_checksum
 // for every accepted 20-byte string, re-encoding the decoded value reproduces the bytes consumed
 #[cfg_attr(kani, kani::proof)]
 #[cfg_attr(kani, kani::unwind(22))]
